@@ -1,10 +1,10 @@
-\* splitInt64Range transcription, base 2, 4 levels: all 256 (min,max)
+\* base 4, 3 levels, 2-bit groups (three payload bytes: multi-group carries exist)
 CONSTANTS
-  B = 2
-  L = 4
-  G = 3
+  B = 4
+  L = 3
+  G = 2
   ShiftStart = 32
-  FE = 1
+  FE = 2
 SPECIFICATION SplitSpec
 CHECK_DEADLOCK FALSE
 INVARIANTS TypeOK LoopInv Disjoint ExactCover Chain SameAsSplit Bounded MatchIff ChainSound EnumCountOK EnumLinear
